@@ -41,8 +41,8 @@ def _scenarios(quick, seed, workdir):
         tgt = dumps.base_target(1, file_maps=[{"path": f["path"], "off": f["off"], "len": 0x3000 if not f["archive"] else 0x3000, "exec": f["exec"], "delete": f["delete"]} for f in files])
         w = {"blamed": "main"}
         mode = k % 4
-        if mode == 1:      # a caller mapping that contains the first file mapping, with the caller's identifier
-            w["user_mappings"] = [{"start": {"file_map": 0, "off": 0}, "size": 0x3000, "name": "/caller/provided name.so", "id_hex": "aabbccddeeff00112233445566778899"}]
+        if mode == 1:      # a caller mapping that describes the first mapped file: exactly its merged extent, or (every other time) its first three pages
+            w["user_mappings"] = [{"start": {"file_map": 0, "off": 0}, "size": "group" if (k // 4) % 2 == 0 else 0x3000, "name": "/caller/provided name.so", "id_hex": "aabbccddeeff00112233445566778899"}]
         if mode == 2:      # the entry point lies in the second mapped file
             w["direct_auxv"] = {"entry": {"file_map": min(1, len(files) - 1), "off": 0x100}}
         if mode == 3:      # a caller mapping elsewhere (suppresses nothing)
